@@ -72,6 +72,16 @@ CHECKS = {
              'after every chunk. After EVERY chunk: application protocol exists iff a complete success reply was delivered '
              'and holds exactly the bytes after it.',
         note='Trusted: refs/socks5.py; the SOCKS endpoint/transport doubles. TLS wrapping is not explored.'),
+    'C06': dict(
+        engine=E1, design='DESIGN.md section 4 / C06',
+        technique='exhaustive input enumeration (all 65536 ports, all hostname lengths 0..257, structured IPv4/IPv6 literal '
+                  'sets, 3 request types) through the real SOCKS client, decoded by an independent RFC 1928 request parser',
+        text='Exhaustive over the stated input space: every port 0..65535 for a hostname CONNECT (thorough: also IPv4/IPv6 '
+             'targets), every hostname length 0..257 plus structured/odd/non-ASCII names, 625 IPv4 literals, 48 IPv6 literals '
+             'covering every position and length of the :: gap, x CONNECT/RESOLVE/RESOLVE_PTR; greeting must be exactly '
+             '05 01 00, exactly one length-exact request after 05 00, none after any other method reply.',
+        note='Trusted: refs/socks5.py. One genuine defect is a known finding (IPv6 CONNECT truncates the address; pinned by '
+             'the repository\'s own test_socks_ipv6).'),
 }
 
 PENDING = {}
